@@ -445,6 +445,16 @@ func (cmd *mainCmd) preview(
 	// gives up on lines longer than 64 KiB, so that no diff was printed for
 	// files that the other modes handle.
 	ab := &lineDiff{a: splitLines(originalContent), b: splitLines(modifiedContent)}
+	if endsWithNewline(originalContent) != endsWithNewline(modifiedContent) {
+		// One of the two ends with a line that is not terminated. Say
+		// so the way diff does; otherwise that line looks the same on
+		// both sides and the diff does not lead from one to the other.
+		if !endsWithNewline(originalContent) {
+			markUnterminated(ab.a)
+		} else {
+			markUnterminated(ab.b)
+		}
+	}
 	script := ctxt.Size(myers.Diff(context.Background(), ab), 3)
 	return write.Unified(script, cmd.Stdout, ab, write.Names(filename, filename))
 }
@@ -457,6 +467,16 @@ func (d *lineDiff) LenB() int                                { return len(d.b) }
 func (d *lineDiff) Equal(ai, bi int) bool                    { return d.a[ai] == d.b[bi] }
 func (d *lineDiff) WriteATo(w io.Writer, i int) (int, error) { return io.WriteString(w, d.a[i]) }
 func (d *lineDiff) WriteBTo(w io.Writer, i int) (int, error) { return io.WriteString(w, d.b[i]) }
+
+func endsWithNewline(text []byte) bool { return len(text) == 0 || bytes.HasSuffix(text, []byte("\n")) }
+
+// markUnterminated appends diff's note for a missing final newline to the
+// last of the lines.
+func markUnterminated(lines []string) {
+	if n := len(lines); n > 0 {
+		lines[n-1] += "\n\\ No newline at end of file"
+	}
+}
 
 // splitLines cuts text into its lines, without the "\n" or "\r\n" that
 // ends them (like bufio.ScanLines, but without a limit on their length).
